@@ -108,7 +108,7 @@ class MacroS(Spec):
         if isinstance(v, Obj) and v.meta.get('macinv'):
             return
         if not isinstance(v, Obj):
-            raise EngineError('%s: expected Expandable, got %r' % (label, v))
+            raise Unsupported('%s: expected Expandable, got %r' % (label, v))
         a = v.fields['args']
         ex.prove(st, label + ':macinv:args-code', args_code_ok(a), line)
         n = seq_len(a)
@@ -118,7 +118,7 @@ class MacroS(Spec):
         elif isinstance(r, TokList):
             BodyList(n).check(ex, st, r, label + ':macinv:repl', line)
         elif not _is_callable_value(r):
-            raise EngineError('%s: repl is %r' % (label, r))
+            raise Unsupported('%s: repl is %r' % (label, r))
         BodyList(n).check(ex, st, v.fields['extract'],
                           label + ':macinv:extract', line)
         ListS(BodyList(None)).check(ex, st, v.fields['defaults'],
@@ -166,7 +166,7 @@ class MacDictS(Spec):
 
     def check(self, ex, st, v, label, line=0):
         if not isinstance(v, PyDict):
-            raise EngineError('%s: expected dict' % label)
+            raise Unsupported('%s: expected dict' % label)
         for k, x in v.items.items():
             MacroS(self.kind).check(ex, st, x, '%s[%r]' % (label, k), line)
 
@@ -213,7 +213,7 @@ class ParserS(Spec):
 
     def check(self, ex, st, v, label, line=0):
         if not isinstance(v, Obj) or v.cls != PARSER:
-            raise EngineError('%s: expected Parser, got %r' % (label, v))
+            raise Unsupported('%s: expected Parser, got %r' % (label, v))
         cm.SameS(self.src).check(ex, st, v.fields['latex'],
                                  label + '.latex', line)
         specs = parser_field_specs(self.src, self.flows)
